@@ -158,7 +158,8 @@ def walk_dir(stmts, inc, d):
             yield from walk_dir(inc[s["f"] - 1]["body"], inc, inc[s["f"] - 1].get("dir", ""))
 
 
-INC_SPELLINGS = ["{n}.mac", "./{n}.mac", "sub/../{n}.mac"]
+# the fourth spelling is absolute and not normalised (asm() puts the scratch directory in place of @ROOT@)
+INC_SPELLINGS = ["{n}.mac", "./{n}.mac", "sub/../{n}.mac", "@ROOT@/sub/../{n}.mac"]
 
 
 END_JUNK = ["*** END OF PROGRAM ***", "\t.ascii \"not closed", "=====\x1a"]
@@ -218,7 +219,7 @@ def render(files, inc, base=None, late=None, vary_case=False):
             n = list.__getitem__(self, i)
             k = counter.get(n, 0)
             counter[n] = k + 1
-            return INC_SPELLINGS[k % 3].format(n=n)[:-4]
+            return INC_SPELLINGS[k % 4].format(n=n)[:-4]
     inc_names = Names([inc_path(f)[:-4] for f in inc])
     for f in files:
         for s, d in walk_dir(f, inc, ""):
